@@ -321,3 +321,16 @@ package generator
 //@ ensures vs_all(func(i int) bool { return vs_all(func(j int) bool { return 0 <= i && i < j && j < len(result0) ==> result0[i] < result0[j] }) })
 //@ ensures vs_all(func(i int) bool { return 0 <= i && i < len(result0) ==> vs_any(func(e int) bool { return 0 <= e && e < len(swsp.Schemes) && swsp.Schemes[e] == result0[i] }) || vs_any(func(e int) bool { return 0 <= e && e < len(operation.Schemes) && operation.Schemes[e] == result0[i] }) })
 //@ ensures vs_all(func(i int) bool { return vs_all(func(j int) bool { return 0 <= i && i < j && j < len(result1) ==> result1[i] < result1[j] }) })
+
+// ---- C05: the struct tag as a whole ----
+
+//@ func GenSchema.PrintTags
+//@ props C05
+//@ ensures vs_called("Join") && len(vs_callArg[[]string]("Join", 0)) >= 1 && vs_callArg[[]string]("Join", 0)[0] == "json:"+strconv.Quote(g.renderMarshalTag())
+//@ ensures len(g.XMLName) > 0 ==> len(vs_callArg[[]string]("Join", 0)) >= 2 && vs_callArg[[]string]("Join", 0)[1] == "xml:"+strconv.Quote(g.XMLName+vs_opt(!g.Required && g.IsEmptyOmitted, ",omitempty"))
+//@ loop 1 invariant tags != nil && vs_fresh(tags) && vs_has(tags, "json") && tags["json"] == g.renderMarshalTag() && len(orderedTags) >= 1 && orderedTags[0] == "json"
+//@ loop 1 invariant len(g.XMLName) > 0 ==> vs_has(tags, "xml") && tags["xml"] == g.XMLName+vs_opt(!g.Required && g.IsEmptyOmitted, ",omitempty") && len(orderedTags) >= 2 && orderedTags[1] == "xml"
+//@ loop 2 invariant len(kvPairs) == vs_done(2) && tags != nil && vs_has(tags, "json") && tags["json"] == g.renderMarshalTag() && len(orderedTags) >= 1 && orderedTags[0] == "json"
+//@ loop 2 invariant len(g.XMLName) > 0 ==> vs_has(tags, "xml") && tags["xml"] == g.XMLName+vs_opt(!g.Required && g.IsEmptyOmitted, ",omitempty") && len(orderedTags) >= 2 && orderedTags[1] == "xml"
+//@ loop 2 invariant vs_done(2) >= 1 ==> kvPairs[0] == "json:"+strconv.Quote(g.renderMarshalTag())
+//@ loop 2 invariant len(g.XMLName) > 0 && vs_done(2) >= 2 ==> kvPairs[1] == "xml:"+strconv.Quote(g.XMLName+vs_opt(!g.Required && g.IsEmptyOmitted, ",omitempty"))
